@@ -88,7 +88,32 @@ func runRotate(conn *fakech.CtrlConn, e env, cfg rotCfg) error {
 
 // ---- the database Rotate finds: produced by the real Update ---------------------------------
 
-var baseCache sync.Map
+// baseCache: schema catalogue per (environment, ttl days, policy); bounded, because the generated
+// checks draw thousands of distinct keys (rebuilding one costs a few milliseconds).
+var baseCache boundedCache
+
+type boundedCache struct {
+	mu sync.Mutex
+	m  map[string]any
+}
+
+const boundedCacheMax = 48
+
+func (c *boundedCache) Load(k string) (any, bool) {
+	c.mu.Lock()
+	defer c.mu.Unlock()
+	v, ok := c.m[k]
+	return v, ok
+}
+
+func (c *boundedCache) Store(k string, v any) {
+	c.mu.Lock()
+	defer c.mu.Unlock()
+	if c.m == nil || len(c.m) >= boundedCacheMax {
+		c.m = map[string]any{}
+	}
+	c.m[k] = v
+}
 
 func baseCatalog(e env, cfg rotCfg) (*fakech.CtrlCatalog, error) {
 	key := fmt.Sprintf("%v/%v/%d/%s", e.Clustered, e.Replicated, cfg.Days, cfg.Policy)
